@@ -23,6 +23,13 @@ EVENTS = ['on_add', 'on_world_load', 'on_switch_in', 'on_switch_out',
 def num(v):
     if isinstance(v, list) and v and v[0] == 'F':
         return Fraction(v[1], v[2])
+    if isinstance(v, list) and v and v[0] == 'DT':
+        import datetime
+        return datetime.datetime(2020, 1, 1) + datetime.timedelta(
+            seconds=v[1])
+    if isinstance(v, list) and v and v[0] == 'TD':
+        import datetime
+        return datetime.timedelta(seconds=v[1])
     return v
 
 
@@ -43,7 +50,22 @@ class Interp:
             scenario.get('run_seed', 0) & 0xffff, self.trace)
         self.saved_default = d.default_loop
         self.loop = d.SimpleLoop(self.read_clock)
-        d.default_loop = self.loop
+        self.own_loop = bool(self.cfg.get('own_loop'))
+        if self.own_loop:
+            # the simulated loop is NOT the default one; the default loop
+            # holds an unrelated world that nothing here may touch
+            decoy_world = d.World()
+
+            class Decoy(d.Handle):
+                def load(self):
+                    return decoy_world
+            self.decoy_handle = Decoy()
+            self.decoy_loop = d.SimpleLoop()
+            self.decoy_loop.switch(self.decoy_handle)
+            self.decoy_world = decoy_world
+            d.default_loop = self.decoy_loop
+        else:
+            d.default_loop = self.loop
         it = self
         # ---- clock
         ck = self.cfg['clock']
@@ -120,9 +142,11 @@ class Interp:
         self.abandoned = None
         self.trace.add('clock', self.nread, repr(self.now))
         self.ev.append(('clock', self.frame, self.now))
-        if inc == 0:
+        if not inc:
             self.probes['zero_delta_reading'] += 1
-        if inc >= 1000:
+        if type(inc).__name__ == 'timedelta':
+            self.probes['datetime_clock'] += 1
+        elif inc >= 1000:
             self.probes['jump_reading'] += 1
         if isinstance(self.now, Fraction):
             self.probes['fraction_clock'] += 1
@@ -354,6 +378,10 @@ class Interp:
     def sop_switch(self, op, inst):
         _, T, cc, cn, fromkind = op
         d = self.desper
+        if self.own_loop:
+            fromkind = 'current'        # there is no usable default here
+            if inst is None:
+                return
         frm = self.cur if fromkind == 'default' else inst
         if frm is None or frm in self.muted:
             return
@@ -401,6 +429,8 @@ class Interp:
     def sop_quit_loop(self, op, inst):
         target = op[1]
         d = self.desper
+        if self.own_loop and target == 'none':
+            target = 'cur'
         if target == 'none':
             tinst, tw = self.cur, None
         elif target == 'cur':
@@ -514,6 +544,16 @@ class Interp:
         self.trace.add('outcome', outcome[0],
                        type(outcome[1]).__name__)
         self.check_outcome(outcome)
+        if self.own_loop and (
+                not self.decoy_handle.cached
+                or self.decoy_loop.current_world is not self.decoy_world
+                or self.decoy_loop.current_world_handle
+                is not self.decoy_handle):
+            self.fail('C13', 'foreign_loop_touched', 'the default loop (not '
+                      'the one that runs) had its handle cleared or its '
+                      'world changed')
+        if self.own_loop:
+            self.probes['non_default_loop'] += 1
         self.check_time_history()
         self.check_switch_history()
         if self.nruns >= 2:
@@ -595,9 +635,10 @@ class Interp:
                           f'process() of the current world was called '
                           f'{ticks[frame]} times for one clock reading')
         if len(clocks) >= 2:
-            self.stats['sim_time'] += float(
-                [c for c in self.ev if c[0] == 'clock'][-1][2]
-                - [c for c in self.ev if c[0] == 'clock'][0][2])
+            span = ([c for c in self.ev if c[0] == 'clock'][-1][2]
+                    - [c for c in self.ev if c[0] == 'clock'][0][2])
+            self.stats['sim_time'] += span.total_seconds() if hasattr(
+                span, 'total_seconds') else float(span)
         if any(r['frame'] in expected for r in self.requests) and \
                 len(clocks) >= 2:
             self.probes['dt_across_switch_checked'] += 1
@@ -820,8 +861,17 @@ def gen_config(prop, rng):
                       for _ in range(rng.choice([0, 0, 1, 2]))],
             'coro_prio': rng.choice([0, 1, -1]),
             'comps': comps})
-    kind = rng.choice(['int', 'float', 'frac'])
-    if kind == 'int':
+    kind = rng.choice(['int', 'float', 'frac', 'int', 'float', 'frac',
+                       'datetime', 'timedelta'])
+    if kind in ('datetime', 'timedelta'):
+        # any non-decreasing readings whose differences are the dt
+        tag = 'DT' if kind == 'datetime' else 'TD'
+        start = [tag, rng.choice([0, 3600, 86400.5])]
+        incs = [['TD', rng.choice([0, 0.25, 1, 2, 1000])] for _ in range(
+            rng.randint(1, 6))]
+        for wspec in worlds:
+            wspec['coros'] = []         # (coroutine timers want numbers)
+    elif kind == 'int':
         start = rng.choice([0, 10, -5, 2 ** 40])
         incs = [rng.choice([0, 1, 1, 2, 1000]) for _ in range(
             rng.randint(1, 6))]
@@ -834,6 +884,7 @@ def gen_config(prop, rng):
         incs = [['F', rng.choice([0, 1, 1, 3, 4000]), 4] for _ in range(
             rng.randint(1, 6))]
     return {'policy': rng.choice(kernel.POLICIES), 'worlds': worlds,
+            'own_loop': rng.random() < .2,
             'clock': {'start': start, 'incs': incs}}
 
 
@@ -1020,11 +1071,11 @@ PROBES = {
             'reenter_muted_world_with_pending', 'direct_raise',
             'probe_on_muted_world', 'held_events_released',
             'entry_cut_by_held_event_callback', 'carried_events_released',
-            'entry_cut_by_chained_switch'],
+            'entry_cut_by_chained_switch', 'non_default_loop'],
     'C14': ['quit_from.proc_first', 'quit_from.proc', 'quit_from.on_update',
             'quit_from.coroutine', 'quit_from.clock', 'boom_from.proc',
             'restart_count>=2', 'zero_delta_reading', 'jump_reading',
             'fraction_clock', 'dt_across_switch_checked', 'on_quit_checked',
             'quit_checked', 'boom_then_restart_possible',
-            'on_quit_cut_by_raising_listener'],
+            'on_quit_cut_by_raising_listener', 'datetime_clock'],
 }
